@@ -4,6 +4,7 @@ import (
 	"encoding/json"
 	"fmt"
 	"go/ast"
+	"go/types"
 	"os"
 	"path/filepath"
 	"regexp"
@@ -45,6 +46,10 @@ type Ctx struct {
 	pins     map[string][2]int
 	ruleDocs map[string]string
 	notes    []string
+	le        *lockEnv
+	addrTaken map[*types.Func]bool
+	cr        *callResolver
+	lg        *lockGraph
 }
 
 func newCtx(p *Prog, prop, tier string) *Ctx {
